@@ -64,6 +64,9 @@ type capCase struct {
 	// RPM4: private modes the terminal does not support are reported as
 	// "permanently reset" (DECRPM status 4) instead of "not recognised" (0)
 	RPM4 bool `json:"unsupported_modes_report_4,omitempty"`
+	// SixelVia: "da1" = sixel support is announced by attribute 4 of the
+	// device attributes only, "xtsmgraphics" = by the graphics reply only
+	SixelVia string `json:"sixel_announced_by,omitempty"`
 }
 
 func names(mask uint32) []string {
@@ -114,6 +117,7 @@ func runCaps(w *harness.W, cc capCase) {
 		if cc.RPM4 {
 			t.UnsupportedModeReport = 4
 		}
+		t.SixelVia = cc.SixelVia
 	})
 	if err != nil {
 		w.Violation("new-failed", err.Error(), cc, err.Error(), "nil")
@@ -124,7 +128,7 @@ func runCaps(w *harness.W, cc capCase) {
 		return
 	}
 	vx := sess.Vx
-	w.Case(fmt.Sprintf("caps|%d|%v|%v", cc.Mask, cc.Kitty, cc.RPM4))
+	w.Case(fmt.Sprintf("caps|%d|%v|%v|%s", cc.Mask, cc.Kitty, cc.RPM4, cc.SixelVia))
 	w.Count("sessions", 1)
 	// Can* accessors
 	type pair struct {
@@ -368,7 +372,7 @@ func (c check) Run(w *harness.W, b harness.Batch) {
 			}
 		}
 		for i, m := range masks {
-			runCaps(w, capCase{Mask: m, Names: names(m), Kitty: i%5 == 4, RPM4: i%3 == 1})
+			runCaps(w, capCase{Mask: m, Names: names(m), Kitty: i%5 == 4, RPM4: i%3 == 1, SixelVia: []string{"", "da1", "xtsmgraphics", ""}[(i/2)%4]})
 		}
 	case "colours":
 		runColours(w, s, r, w.Tier)
